@@ -349,6 +349,9 @@ func eventsDigest(evs []abci.Event) string {
 	return fmt.Sprintf("%d/%x", len(evs), h.Sum(nil)[:8])
 }
 
+// EventsDigest is the order-sensitive digest of events used in trace lines.
+func EventsDigest(evs []abci.Event) string { return eventsDigest(evs) }
+
 // SetTime moves the open block's time (re-running BeginBlock is avoided: only the header used for
 // contexts changes; use before any tx of the block).
 func (c *Chain) SetTime(t time.Time) {
